@@ -5,7 +5,7 @@ Model: Model/Level2.lean (`level1` = getBH_level1's frame change, `leafB`, `sumT
 `rotate(Q, anchor=0)` then `move(t)` realise, see C09) and on observer positions by `x ↦ Q x + t`.
 The local field function `F` is arbitrary: the theorems hold for every source class.
 -/
-import MagpyVerif.Lemmas.Level2
+import MagpyVerif.Lemmas.Level2Compose
 namespace MagpyVerif.C03
 open MagpyVerif MagpyVerif.Level2
 variable {G V : Type}
@@ -27,5 +27,18 @@ theorem covariance (Q : G) (t : V) (leaves : List (Src G V)) (M : Nat) (X : List
 example : level1 (G := M3 Int) (V := V3 Int)
     { pos := [⟨3, 0, 0⟩, ⟨4, 0, 0⟩], ori := [1, ⟨⟨0, -1, 0⟩, ⟨1, 0, 0⟩, ⟨0, 0, 1⟩⟩], F := fun x => x + ⟨1, 0, 0⟩ } 5 ⟨10, 0, 0⟩
       = ⟨6, 1, 0⟩ := by decide
+
+
+/-- with Sensor observers: if every leaf of an entry and the sensor are moved by the same rigid
+motion (whole paths), the sensor reads the same values as before — at every path index, for every
+pixel, either handedness, any nesting (the entry enters only through its leaves) -/
+theorem covariance_with_sensor [BEq G] [LawfulBEq G] (flipX : V → V) (Q : G) (t : V) (e e' : Entry G V)
+    (hl : e'.leaves = e.leaves.map (Src.moved Q t)) (k : Sens G V) (hk : k.ori ≠ []) (m : Nat) :
+    (pixPos (k.moved Q t) m).map (specValue flipX e' (k.moved Q t) m) =
+      (pixPos k m).map (specValue flipX e k m) := by
+  rw [pixPos_moved, List.map_map]
+  apply List.map_congr_left
+  intro x _
+  exact specValue_moved flipX Q t e e' hl k hk m x
 
 end MagpyVerif.C03
